@@ -438,7 +438,13 @@ impl Network {
             })
             .max()
             .unwrap_or(1);
-        let overflow_capacity = number_of_service_nodes as VehicleCount * max_formation_count;
+        // every track of a maintenance slot can force one additional vehicle into the circulation
+        let number_of_maintenance_tracks = maintenance_slots
+            .iter()
+            .map(|slot| slot.track_count())
+            .sum::<VehicleCount>();
+        let overflow_capacity = number_of_service_nodes as VehicleCount * max_formation_count
+            + number_of_maintenance_tracks;
         let overflow_depot_id = DepotIdx::from(depots.len() as Idx);
         let overflow_depot = Depot::new(
             overflow_depot_id,
